@@ -95,7 +95,7 @@ def run(rep):
     rng = rep.rng
     thorough = rep.tier == "thorough"
     rep.extra["rule"] = ("pairs of flat listings over names that sort around '/' (a, a.b, a-, a0, 'a b', a!, a+, 0xff, 0x01), files / "
-                         "executables / symlinks / gitlinks, directories up to depth 4 (12 in thorough); the second listing is the first "
+                         "executables / symlinks / gitlinks, directories up to depth 4 (6 in thorough); the second listing is the first "
                          "under 1..6 edits {delete, add, deep add, mode, id, type, file->dir, dir->file, delete dir, rename} or an "
                          "independent listing or the empty listing.  Per pair: commit_tree both, dump the stored trees to the model; "
                          "tree_changes under 7 flag combinations, iter_tree_contents and tree_lookup_path are compared with the model "
@@ -106,11 +106,11 @@ def run(rep):
     rep.trusted += ["C git 2.39.5 update-index --index-info / write-tree / diff-tree as oracle for tree ids and raw diffs"]
     impl = Impl(PROP, case_timeout=300)
     model = Model(PROP)
-    n = 220 if not thorough else 6000
-    ngit = 60 if not thorough else 1200
+    n = 220 if not thorough else 2000
+    ngit = 60 if not thorough else 400
     reqs, meta = [], []
     for k in range(n):
-        maxdepth = rng.choice([1, 2, 3, 4] + ([8, 12] if thorough else []))
+        maxdepth = rng.choice([1, 2, 3, 4] + ([6] if thorough else []))
         width = rng.choice([2, 3, 5, 8])
         a = gen_dir(rng, 0, maxdepth, width)
         r = rng.random()
